@@ -58,6 +58,12 @@ def dominance_checks(rows, finite_mems, with_usage, viol, witness_extra):
             if i == j:
                 continue
             if all(x <= y for x, y in zip(a, b)) and any(x < y for x, y in zip(a, b)):
+                if all(abs(x - y) <= 2.0 ** -22 * max(abs(x), abs(y)) for x, y in zip(a, b)):
+                    # the two vectors are the SAME numbers in float32 (one row carries a usage fraction as float32, the
+                    # other as float64: 0.05 vs 0.05000000074505806): a duplicate objective vector, not a dominated row
+                    viol.append({"sig": "duplicate_objective_vectors:equal_in_float32",
+                                 "witness": dict(witness_extra, vector_a=a, vector_b=b, rows=[i, j], n_rows=len(vs))})
+                    return
                 sig = "returned_row_strictly_dominated"
                 if with_usage:
                     # the code prunes on every reservation column; the reported usage is the per-memory maximum.
